@@ -215,12 +215,12 @@ CPP_OPT_VALUES = {
     "allocator_is_default_constructible": [True, False],
 }
 SECTION_VALUES = {
-    "extension": [".h", ".hpp", ".xx"],
+    "extension": [".h", ".hpp", ".xx", ""],  # an explicit empty string is a value like any other
     "namespace_file_stem": ["_ns_", "index"],
     "limit_empty_lines": [0, 1, 2],
     "trim_trailing_whitespace": [True, False],
-    "stropping_prefix": ["_", "zz"],
-    "zz_new_key": ["v1", "v2"],
+    "stropping_prefix": ["_", "zz", ""],
+    "zz_new_key": ["v1", "v2", ""],
 }
 NESTED_VALUES = {
     "named_types": {"byte": ["uint8_t", "my_byte"], "zz": ["t1", "t2"]},
